@@ -8,12 +8,13 @@ git -C /repo worktree add --detach $WT HEAD >/dev/null 2>&1 || exit 3
 trap 'git -C /repo worktree remove --force $WT >/dev/null 2>&1' EXIT
 export GOFLAGS=-mod=mod GOPROXY=off
 cd $WT
+NEW=0; [ -d "$PKG" ] || { mkdir -p "$PKG"; NEW=1; }
 cp "$SRC/demo_test.go" "$PKG/zz_seed_demo_test.go"
 go test -vet=off -count=1 -run "$RX" ./$PKG/ > /tmp/sc-$$.clean 2>&1; clean_rc=$?
 git apply "$SRC/patch.diff" || { echo "patch does not apply"; exit 3; }
 go build ./... || { echo "does not build"; exit 3; }
 go test -vet=off -count=1 -run "$RX" ./$PKG/ > /tmp/sc-$$.patched 2>&1; patched_rc=$?
-rm -f "$PKG/zz_seed_demo_test.go"
+rm -f "$PKG/zz_seed_demo_test.go"; [ $NEW = 1 ] && rm -rf "$PKG"
 go test -json -vet=off -count=1 -timeout 25m ./... > /tmp/sc-$$.json 2>/dev/null
 suite=$(python3 - /tmp/sc-$$.json <<'PY'
 import json,sys
